@@ -10,8 +10,8 @@ PROPS_MODULES = ["C16.Props"]
 RUN_MODULE = "C16.Run"
 RUN_FN = "run_case"
 HARNESS_BIN = "c16"
-HARNESS_BINS = ["c16"]
-SHRINK_KEEP = ("new",)
+HARNESS_BINS = ["c16", "c16bb"]
+SHRINK_KEEP = ("new", "bb")
 CLAIMED = True
 RULE = ("cases: a SessionManager with max_connections in {0,1,2,3,4,5,10} and a per-(cluster,ip) limit in {0..3}, "
         "then histories over 4 connection tokens x 2 clusters x 3 source IPs of accept (gated on can_accept, then "
@@ -96,6 +96,36 @@ def corpus_cases():
                     c.id = "k" + c.id
                     out.append(c)
     return out
+
+
+def extra_stage(tier, rng, work):
+    """black-box tier: a real worker thread, real sockets, a seeded mix of session outcomes (complete, keep-alive,
+    client reset, reset mid-request, backend refusal, idle close, idle until the front timeout, storm above
+    max_connections); QueryMetrics gauges compared with the idle baseline; runs through the `bb` op of the driver"""
+    if tier == "thorough":
+        cfgs = [(rng.randrange(1, 10 ** 6), mx, lim, 16) for mx in (1, 2, 5) for lim in (0, 1, 2)]
+    else:
+        cfgs = [(rng.randrange(1, 10 ** 6), 1, 0, 8), (rng.randrange(1, 10 ** 6), 2, 1, 8)]
+    cases = [Case("bb%d_%d_%d" % (i, c[1], c[2]), [["bb"] + list(c)], {}) for i, c in enumerate(cfgs)]
+    outs, problems = vlib.run_harness(HARNESS_BIN, cases, os.path.join(work, "bb"), "release", timeout=1200, shards=len(cases))
+    viols, fails = [], list(problems)
+    done = 0
+    for c in cases:
+        o = outs.get(c.id)
+        if o is None:
+            fails.append("black-box case %s produced no output" % c.id)
+            continue
+        if o["panic"] is not None:
+            viols.append((c, "panic", o["panic"]))
+        for (vc, vt) in o["viol"]:
+            viols.append((c, vc, vt))
+        if not any(n.startswith("bb:") or n.startswith("invalid-case") for n in o["notes"]):
+            done += 1
+        for n in o["notes"]:
+            if n.startswith("invalid-case"):
+                fails.append("black-box case %s: %s" % (c.id, n))
+    return dict(failures=fails, viols=viols, coverage=dict(blackbox_runs=len(cases), blackbox_completed=done,
+                blackbox_configs=["seed=%d max_connections=%d per_ip=%d rounds=%d" % c for c in cfgs]))
 
 
 def nontrivial(case, o):
